@@ -1,6 +1,7 @@
 # C14 -- no datagram or capture content can crash the tools.
 
 import ast
+from pyfront import clone as _clone
 import os
 
 from report import AnalysisError
@@ -255,7 +256,7 @@ def attr_uses(repo, attrs):
                     continue
                 import copy
                 from pyfront import _Subst
-                ops2 = [_Subst(subst).visit(copy.deepcopy(o)) for o in ops]
+                ops2 = [_Subst(subst).visit(_clone(o)) for o in ops]
                 for a in attrs:
                     if not any(mentions(o, a) for o in ops2):
                         continue
@@ -413,7 +414,8 @@ def r4_attrs(L, repo, es):
         need = precondition(a, kind, ops, repo, m, fd)
         if need is None:
             continue
-        desc = "%s `%s` in %s" % (kind, canon(node)[:50], qn)
+        desc = "%s in %s" % (kind, qn)
+        desc_full = "%s `%s` in %s" % (kind, canon(node)[:50], qn)
         if need[0] == "index":
             size = index_need(repo, m, fd, need[1], a, node)
             if size is None:
@@ -424,6 +426,8 @@ def r4_attrs(L, repo, es):
                     canon(idx.right) in ("len(%s)" % base,)
                 if ok_mod:
                     need = ("nonempty_list", base)
+                    if not (isinstance(node.value, ast.Attribute) and node.value.attr == a):
+                        continue       # this attribute only takes part in the (total) `% len(list)` index
                 else:
                     continue
             else:
